@@ -19,6 +19,7 @@ type c03Cell struct {
 	Prior    bool // an earlier refresh of the same term whose store call stays blocked (request lost) while later ones succeed
 	Flap     bool // a health checker that answers unhealthy once, on the tick after the second failing attempt
 	MCF      int  // MaxConsecutiveFailures set although no health checker is configured (it must not matter)
+	Second   bool // the fault hits the instance's second term: the first ended by the heartbeat's own discovery of an outside deletion, with an OnDemote that takes 1.2s, during which the instance re-acquired the key
 }
 
 var c03Faults = []string{"err-timeout", "err-noresponders", "err-closed", "hang", "acklost-once", "acklost-window", "partition-forever", "replaced", "replaced-canonical-other", "deleted"}
@@ -42,6 +43,13 @@ func c03Plan(c c03Cell, lat []time.Duration, phase time.Duration) *Plan {
 	}
 	// the k-th heartbeat is issued at about start + k*H
 	tFault := time.Duration(c.K)*c.H - c.H/2 + phase
+	if c.Second {
+		// term 1 ends at its second heartbeat (the record was deleted from outside half an interval earlier);
+		// the periodic check of the watch loop that starts then re-acquires the key about 555ms later
+		p.Instances[0].DemoteDur = 1200 * time.Millisecond
+		p.Timeline = append(p.Timeline, Action{At: odd(c.H + c.H/2), Kind: ActExtDelete, Inst: -1, Key: "g"})
+		tFault += 2*c.H + 555*time.Millisecond
+	}
 	switch c.Fault {
 	case "err-timeout", "err-noresponders", "err-closed":
 		p.Windows = []Window{{Inst: 0, From: tFault, Mode: FaultErr, ErrKind: c.Fault[4:]}}
@@ -91,15 +99,18 @@ func c03Grid() []c03Cell {
 				for k := 1; k <= 6; k++ {
 					for _, f := range c03Faults {
 						for _, fol := range []bool{false, true} {
-							out = append(out, c03Cell{h, ratio, vi, k, f, fol, false, false, 0})
+							out = append(out, c03Cell{h, ratio, vi, k, f, fol, false, false, 0, false})
 							if k >= 3 {
-								out = append(out, c03Cell{h, ratio, vi, k, f, fol, true, false, 0})
+								out = append(out, c03Cell{h, ratio, vi, k, f, fol, true, false, 0, false})
 							}
 							if f == "err-timeout" || f == "hang" || f == "partition-forever" {
-								out = append(out, c03Cell{h, ratio, vi, k, f, fol, false, true, 0})
+								out = append(out, c03Cell{h, ratio, vi, k, f, fol, false, true, 0, false})
+							}
+							if !fol && ratio == 3 && vi == 0 && (k == 1 || k == 3) && (f == "deleted" || f == "replaced" || f == "err-timeout" || f == "hang") {
+								out = append(out, c03Cell{h, ratio, vi, k, f, fol, false, false, 0, true})
 							}
 							if f == "err-timeout" || f == "hang" || f == "partition-forever" || f == "acklost-window" {
-								out = append(out, c03Cell{h, ratio, vi, k, f, fol, false, false, 1}, c03Cell{h, ratio, vi, k, f, fol, false, false, 8})
+								out = append(out, c03Cell{h, ratio, vi, k, f, fol, false, false, 1, false}, c03Cell{h, ratio, vi, k, f, fol, false, false, 8, false})
 							}
 						}
 					}
@@ -113,7 +124,7 @@ func c03Grid() []c03Cell {
 func TestC03(t *testing.T) {
 	grid := c03Grid()
 	RunCheck(t, CheckSpec{Prop: "C03",
-		Rule:        fmt.Sprintf("fault grid: heartbeat interval H in %v (time-out max(H/2,1s) switches at H=2s) x TTL/H in {3,5} x ValidationInterval in {default 5s, H, 3H} x attempt index k in 1..6 at which the fault begins x fault kind in %v x with/without a live follower x (for k>=3) with/without an earlier refresh of the term whose store call stays blocked for ever x (for the unreachable-store kinds) with/without a health checker that answers unhealthy once between the second and the third failing attempt x (for those kinds and lost acknowledgements) MaxConsecutiveFailures in {unset, 1, 8} with no health checker configured = %d cells; thorough enumerates every cell (sharded) with a fixed latency vector and adds generated latencies and ticker phases; quick runs a seeded sample of cells with generated latencies. Oracle: exact virtual-time bounds of both clauses (next heartbeat attempt / t_c+H+2T; third consecutive failed attempt / last successful refresh + 3H+3T), OnDemote entered, and no heartbeat-caused demotion after fewer than three transient failures. Non-trivial = the plan produced a record change under a leader or three consecutive failed refreshes; distinct by plan hash.", c03Hs, c03Faults, len(grid)),
+		Rule:        fmt.Sprintf("fault grid: heartbeat interval H in %v (time-out max(H/2,1s) switches at H=2s) x TTL/H in {3,5} x ValidationInterval in {default 5s, H, 3H} x attempt index k in 1..6 at which the fault begins x fault kind in %v x with/without a live follower x (for k>=3) with/without an earlier refresh of the term whose store call stays blocked for ever x (for the unreachable-store kinds) with/without a health checker that answers unhealthy once between the second and the third failing attempt x (for those kinds and lost acknowledgements) MaxConsecutiveFailures in {unset, 1, 8} with no health checker configured, plus cells in which the fault hits the instance's second term (the first ended by an outside deletion, OnDemote taking 1.2s while the key was re-acquired) = %d cells; thorough enumerates every cell (sharded) with a fixed latency vector and adds generated latencies and ticker phases; quick runs a seeded sample of cells with generated latencies. Oracle: exact virtual-time bounds of both clauses (next heartbeat attempt / t_c+H+2T; third consecutive failed attempt / last successful refresh + 3H+3T), OnDemote entered, and no heartbeat-caused demotion after fewer than three transient failures. Non-trivial = the plan produced a record change under a leader or three consecutive failed refreshes; distinct by plan hash.", c03Hs, c03Faults, len(grid)),
 		Assumptions: []string{"clause 1 is judged only for instances without injected link faults (the statement's 'store still answers')"},
 		Fixed: func() []*Plan {
 			if tier() != "thorough" {
